@@ -12,7 +12,7 @@
     and indexes are unbounded. *)
 From Coq Require Import ZArith List Bool.
 From Low Require Import Lib.MachInt Lib.Bits Lib.BitSeq Lib.Bytes Lib.Pack_bw Model.Bitword Spec.BitwordSpec
-  Proofs.BitwordProofs Proofs.BitwordToStr Proofs.BitwordFirstDiff.
+  Spec.BitwordSpecDirect Proofs.BitwordProofs Proofs.BitwordToStr Proofs.BitwordFirstDiff Proofs.BitwordDirect.
 Import ListNotations.
 Open Scope Z_scope.
 
@@ -111,6 +111,36 @@ Theorem C08_ToStrs : forall n wss, widthP n -> Forall (words_in n) wss ->
 Proof. exact ToStrs_exact. Qed.
 Print Assumptions C08_ToStrs.
 
+(** * the word-by-word reading used by the correspondence run on large inputs
+    (ops bitword.Get/large, FirstDiff/large, FromStr/large, ToStr/large) is the same specification *)
+
+(** "word i is the n bits of s starting at bit i*n": [spec_word] = indexing the chunk list *)
+Theorem C08_direct_word : forall n s i, (0 < n)%nat ->
+  spec_word n s i = nthZ (map val_msb (chunks n (msb_bits s))) i.
+Proof. exact spec_word_eq. Qed.
+Print Assumptions C08_direct_word.
+
+Theorem C08_direct_FirstDiff : forall n a b from end_, (0 < n)%nat ->
+  spec_FirstDiff_direct n a b from end_ = spec_FirstDiff n a b from end_.
+Proof. exact spec_FirstDiff_direct_eq. Qed.
+Print Assumptions C08_direct_FirstDiff.
+
+Theorem C08_direct_FromStr : forall n s, (0 < n)%nat ->
+  spec_FromStr_seq n s = map val_msb (chunks n (msb_bits s)).
+Proof. exact spec_FromStr_seq_eq. Qed.
+Print Assumptions C08_direct_FromStr.
+
+Theorem C08_direct_ToStr : forall n ws, spec_ToStr_seq n ws = pack (flat_map (to_bits n) ws).
+Proof. exact spec_ToStr_seq_eq. Qed.
+Print Assumptions C08_direct_ToStr.
+
+(** Get and FromStr against the word-by-word reading, as observed by bitword.Get/large *)
+Theorem C08_Get_word : forall n s i, widthP n -> bytes_ok s -> 0 <= i < nwords n s ->
+  Get (newBW (Z.of_nat n)) s i = spec_word n s i /\
+  nthZ (FromStr (newBW (Z.of_nat n)) s) i = spec_word n s i.
+Proof. exact Get_word. Qed.
+Print Assumptions C08_Get_word.
+
 (** * non-vacuity *)
 
 (** the four widths satisfy the hypothesis; a string with high bits set *)
@@ -165,3 +195,11 @@ Proof.
   - repeat (apply Forall_cons; [apply bytes_okb_ok; reflexivity|]). apply Forall_nil.
   - repeat (apply Forall_cons; [apply words_inb_in; reflexivity|]). apply Forall_nil.
 Qed.
+
+Example C08_direct_nonvacuous :
+  spec_word 4 [0xa5; 0xff; 0x01] 5 = Some 1 /\ spec_word 4 [0xa5; 0xff; 0x01] 6 = None /\
+  spec_word 4 [0xa5; 0xff; 0x01] (-1) = None /\
+  spec_FirstDiff_direct 2 [0xa5; 0xff] [0xa5; 0xf7; 0x00] 0 (-1) = 6 /\
+  spec_FromStr_seq 2 [0xa5; 0xff; 0x01] = [2; 2; 1; 1; 3; 3; 3; 3; 0; 0; 0; 1] /\
+  spec_ToStr_seq 2 [3; 0; 1] = [0xc4].
+Proof. repeat split; reflexivity. Qed.
